@@ -20,7 +20,8 @@ def identifiers():
            "$HOME", "`id`", ";rm", "a|b", "a&b", "\\", "a\\b", "'", "\"", "%00", "\x01\x02", "a\x00b", "é", "é",
            "\U0001F600", "x_delete", "tmp", "objects", "hashstore.yaml", "refs/pids", "p" * 5000,
            hashlib.sha256(A).hexdigest(), hashlib.sha256(b"x").hexdigest(), "ab", "a", "~", "CON", "x.", ".x",
-           "漢" * 1100 + "/v1", "漢" * 1100 + "/v2", "x" * 2047 + "é/1", "x" * 2047 + "é/2"]
+           "漢" * 1100 + "/v1", "漢" * 1100 + "/v2", "x" * 2047 + "é/1", "x" * 2047 + "é/2",
+           "x" + DEFAULT_NS[:10]]  # with the rest of the namespace as format: pid+format equals "x" + default namespace
     return ids
 
 
@@ -130,6 +131,15 @@ def _first(xi):
         if yi == xi:
             continue
         fmts = [(None, None)] if TIER == "quick" and (xi + yi) % 4 else [(None, None), ("fmt/../x", "fmt/../x"), ("c", "bc")]
+        # (pid, format) pairs whose CONCATENATIONS coincide although the pids differ - always run
+        for u, v, swap in ((x, y, False), (y, x, True)):
+            if u.startswith(v) and len(u) > len(v):
+                sfx = u[len(v):]
+                pair = ("c", sfx + "c")
+                fmts.append(pair if not swap else pair[::-1])
+                if DEFAULT_NS.startswith(sfx) and len(sfx) < len(DEFAULT_NS):
+                    pair = (DEFAULT_NS[len(sfx):], None)
+                    fmts.append(pair if not swap else pair[::-1])
         for fx, fy in fmts:
             import shutil
             shutil.rmtree(parent, ignore_errors=True)
@@ -158,7 +168,7 @@ def _first(xi):
                 errs.append("a file created at a location that is not derived from hashes only")
             if sorted(os.listdir(parent)) != ["store"]:
                 errs.append("something was created beside the store root")
-            a = abstract(snapshot(root), lay, (x, y), (DEFAULT_NS, "fmt/../x", "c", "bc"))
+            a = abstract(snapshot(root), lay, (x, y), tuple({DEFAULT_NS, "fmt/../x", "c", "bc", fx or DEFAULT_NS, fy or DEFAULT_NS}))
             if a.residue or any(isinstance(k, tuple) and k[0] == "\0unexplained" for k in list(a.pid_refs) + list(a.metadata)):
                 errs.append("final tree holds files the layout does not explain for these two identifiers")
             for e in sorted(set(errs)):
